@@ -150,6 +150,12 @@ def plan(tier):
         unit('fixed_void', 'h_sig_void', fx, 'signal<void>: the same hand-written histories (call flavours: no argument / bool rvalue / bool lvalue)',
              concrete=CONCRETE_VOID),
     ]
+    # every sequence of call flavours (the collector keeps the value by reference or as an owned copy depending on the flavour of the call and of the calls before it)
+    import itertools as _it
+    ek = [vec([LINF, CINF] + list(t)) for n in ((3,) if quick else (2, 3, 4)) for t in _it.product((EV, ER, EL), repeat=n)]
+    ek += [vec([L2, C2] + list(t) + [DROP_LOW]) for t in _it.product((ER, EL), repeat=2)]
+    units.append(unit('emit_kinds', 'h_sig_int', ek, 'signal<int>: a re-awaiting coroutine and a connected callback, then every sequence of %s collector calls over the three flavours '
+                      '(constructor arguments / rvalue / lvalue)' % ('3' if quick else '2..4'), concrete=[(vec([LINF, CINF, ER, EL, ER]), [4, 5, 6])]))
     K = 14
     vc = [[pr, pre, k] for pr in range(7) for pre in range(3) for k in range(K)]
     units.append(dict(engine='e1', name='sig_mt', tu='C15conc.cpp', entry='h_sig_conc', unwind=6, timeout=300, vectors=vc, cbmc_extra=EXTRA,
